@@ -264,7 +264,7 @@ theorem resolveCall_ok {cfg : Cfg} {W : World} {rq : Req} {cid : Nat} {rc : RC} 
     (h : resolveCall cfg W rq cid = .ok (rc, cr)) :
     ∃ cl, W.calls[cid]? = some cl ∧ rc = cl.rc ∧ cr = cl.created ∧ aadTail cl.owner = aadTail rq.ident ∧
       Gen.C14.tokenExpired cfg.ttl (W.nowS cfg) cl.created = false ∧ typeOk cfg rq.method cl.rc = true ∧
-      rq.call = .issued cid := by
+      rq.call = .issued cid ∧ cl.rc.method = rq.method := by
   unfold resolveCall at h
   split at h
   · exact absurd h (by simp)
@@ -287,9 +287,13 @@ theorem resolveCall_ok {cfg : Cfg} {W : World} {rq : Req} {cid : Nat} {rc : RC} 
             · rename_i hty
               have hk' : k = cid := by simpa using hk
               subst hk'
+              have haad' : aadTail cl.owner = aadTail rq.ident ∧ cl.rc.method = rq.method := by
+                simpa [not_or] using haad
               simp only [Except.ok.injEq, Prod.mk.injEq] at h
-              exact ⟨cl, hcl, h.1.symm, h.2.symm, by simpa using haad, by simpa using hexp,
-                by simpa using hty, hcall⟩
+              have hrc : rc = cl.rc := by
+                rw [← h.1, ← haad'.2]
+              exact ⟨cl, hcl, hrc, h.2.symm, haad'.1, by simpa using hexp,
+                by simpa using hty, hcall, haad'.2⟩
 
 /-! ### preservation -/
 
@@ -327,7 +331,7 @@ theorem serveCont_inv {cfg : Cfg} {W : World} (h : Inv cfg W) (w : Nat) (rq : Re
       | error r => exact inv_setCache h w cache1 hget
       | ok p =>
         obtain ⟨rc, cr⟩ := p
-        obtain ⟨cl, hcl, hrc, hcr, haad2, _, _, _⟩ := resolveCall_ok hres
+        obtain ⟨cl, hcl, hrc, hcr, haad2, _, _, _, _⟩ := resolveCall_ok hres
         simp only
         refine finish_inv (W := W.setCache w _) ?_ hcok haad
         apply inv_setCache h
@@ -340,10 +344,12 @@ theorem serveCont_inv {cfg : Cfg} {W : World} (h : Inv cfg W) (w : Nat) (rq : Re
       simp only [hg]
       split
       · exact inv_setCache h w cache1 hget
-      · exact finish_inv (W := W.setCache w cache1) (inv_setCache h w cache1 hget) hcok haad
+      · split
+        · exact inv_setCache h w cache1 hget
+        · exact finish_inv (W := W.setCache w cache1) (inv_setCache h w cache1 hget) hcok haad
 
 theorem serveInit_inv {cfg : Cfg} {W : World} (htps : 0 < cfg.tps) (h : Inv cfg W) (w : Nat) (ident : Ident)
-    (m : Nat) (rc : RC) : Inv cfg (serveInit cfg W w ident m rc) := by
+    (m : Nat) (content : Nat) (stype : Option Nat) : Inv cfg (serveInit cfg W w ident m content stype) := by
   unfold serveInit
   refine ⟨?_, ?_⟩
   · intro c hc
@@ -352,21 +358,21 @@ theorem serveInit_inv {cfg : Cfg} {W : World} (htps : 0 < cfg.tps) (h : Inv cfg 
     · exact cursorOk_mono _ (h.cursors c hc)
     · simp only [List.mem_singleton] at hc
       rw [hc]
-      exact ⟨⟨ident, W.nowS cfg, rc⟩, by simp, rfl⟩
+      exact ⟨⟨ident, W.nowS cfg, ⟨content, stype, m⟩⟩, by simp, rfl⟩
   · intro ch hch
     simp only [World.setCache] at hch
     rcases List.mem_or_eq_of_mem_set hch with h1 | h1
     · exact cacheOk_mono _ (h.caches ch h1)
     · rw [h1]
       apply cacheOk_put (cacheOk_mono _ (cacheOk_cache h.caches w))
-      refine ⟨⟨ident, W.nowS cfg, rc⟩, by simp, rfl, rfl, ?_⟩
+      refine ⟨⟨ident, W.nowS cfg, ⟨content, stype, m⟩⟩, by simp, rfl, rfl, ?_⟩
       intro _ httl
       exact expiry_le cfg cfg.shape.initAnchor W.now htps httl
 
 theorem step_inv {cfg : Cfg} {W : World} (htps : 0 < cfg.tps) (h : Inv cfg W) (s : Step) : Inv cfg (step cfg W s) := by
   cases s with
   | tick d => exact ⟨h.cursors, h.caches⟩
-  | init w ident m rc => exact serveInit_inv htps h w ident m rc
+  | init w ident m content stype => exact serveInit_inv htps h w ident m content stype
   | cont w rq => exact serveCont_inv h w rq
 
 theorem run_inv {cfg : Cfg} (htps : 0 < cfg.tps) (hist : List Step) :
@@ -447,7 +453,8 @@ def HitSafe (cfg : Cfg) (W : World) (w : Nat) (rq : Req) : Prop :=
     e.cid = c.cid → e.ikey = identKey rq.ident → Gen.C14.entryDead e.expires W.now = false →
     EntryOk cfg W.calls e →
     Gen.C14.tokenExpired cfg.ttl (W.nowS cfg) cl.created = false ∧
-      (cfg.shape.hitChecksType = true ∨ typeOk cfg rq.method cl.rc = true)
+      (cfg.shape.hitChecksType = true ∨ typeOk cfg rq.method cl.rc = true) ∧
+      (cfg.shape.hitChecksMethod = true ∨ cl.rc.method = rq.method)
 
 /-- what a hit hands back: the call minted under the cursor's call id, for a caller with the same AAD identity -/
 theorem hit_sound {cfg : Cfg} {W : World} (hinv : Inv cfg W) (w : Nat) (rq : Req) (c : Cursor) (rc : RC)
@@ -476,19 +483,26 @@ theorem hit_cold {cfg : Cfg} {W : World} (hinv : Inv cfg W) (w : Nat) (rq : Req)
   obtain ⟨cl, e, hcl, hrc, haad, hmem, hcid, hkey, hlive, hok⟩ := hit_sound hinv w rq c rc cache1 hopen hg
   obtain ⟨⟨i, hcur, hci⟩, _, _⟩ := openCursor_ok hopen
   have hcall := hecho i c hcur hci
-  obtain ⟨hfresh, hty⟩ := hsafe c cl e hopen hcl hmem hcid hkey hlive hok
+  obtain ⟨hfresh, hty, hmeth⟩ := hsafe c cl e hopen hcl hmem hcid hkey hlive hok
   have hres : resolveCall cfg W rq c.cid
-      = if !typeOk cfg rq.method cl.rc then .error .callType else .ok (cl.rc, cl.created) := by
+      = if cl.rc.method ≠ rq.method then .error .tokenRejected
+        else if !typeOk cfg rq.method cl.rc then .error .callType
+        else .ok ({ cl.rc with method := rq.method }, cl.created) := by
     unfold resolveCall
-    simp only [hcall, hcl, haad, ne_eq, not_true_eq_false, if_false, hfresh, Bool.false_eq_true]
+    simp only [hcall, hcl, haad, ne_eq, not_true_eq_false, false_or, if_false, hfresh, Bool.false_eq_true]
   unfold serveCont coldOutcome
   simp only [hopen, hg, hres, hrc]
-  cases ht : typeOk cfg rq.method cl.rc with
-  | true => simp [finish_out]
-  | false =>
-    rcases hty with hty | hty
-    · simp [hty]
-    · rw [ht] at hty; exact absurd hty (by simp)
+  by_cases hm : cl.rc.method = rq.method
+  · have hrc' : ({ cl.rc with method := rq.method } : RC) = cl.rc := by rw [← hm]
+    cases ht : typeOk cfg rq.method cl.rc with
+    | true => simp [hm, hrc', finish_out]
+    | false =>
+      rcases hty with hty | hty
+      · simp [hm, hty]
+      · rw [ht] at hty; exact absurd hty (by simp)
+  · rcases hmeth with hmeth | hmeth
+    · simp [hm, hmeth]
+    · exact absurd hmeth hm
 
 theorem warm_cold {cfg : Cfg} {W : World} (hinv : Inv cfg W) (w : Nat) (rq : Req)
     (hecho : Echo W rq) (hsafe : HitSafe cfg W w rq) :
@@ -507,9 +521,10 @@ theorem warm_cold {cfg : Cfg} {W : World} (hinv : Inv cfg W) (w : Nat) (rq : Req
 
 /-- when entries age from the call token and the hit branch keeps the type check, every hit is safe -/
 theorem hitSafe_of_repaired {cfg : Cfg} {W : World} (w : Nat) (rq : Req)
-    (hm : cfg.shape.missAnchor = .created) (ht : cfg.shape.hitChecksType = true) : HitSafe cfg W w rq := by
+    (hm : cfg.shape.missAnchor = .created) (ht : cfg.shape.hitChecksType = true)
+    (hmt : cfg.shape.hitChecksMethod = true) : HitSafe cfg W w rq := by
   intro c cl e _ hcl _ hcid _ hlive hok
-  refine ⟨?_, Or.inl ht⟩
+  refine ⟨?_, Or.inl ht, Or.inl hmt⟩
   obtain ⟨cl', hcl', _, _, hb⟩ := hok
   rw [hcid, hcl] at hcl'
   have : cl = cl' := by simpa using hcl'
@@ -561,7 +576,9 @@ theorem hit_ignores_call (cfg : Cfg) (W : World) (w : Nat) (rq rq' : Req)
   simp only [hopen, hopen', hg, hg', h2]
   split
   · rfl
-  · rw [finish_out, finish_out]; unfold finishOut; rw [h2, h4]
+  · split
+    · rfl
+    · rw [finish_out, finish_out]; unfold finishOut; rw [h2, h4]
 
 /-! ### whatever is served was minted for the caller -/
 
@@ -594,11 +611,13 @@ theorem served_sound {cfg : Cfg} {W : World} (hinv : Inv cfg W) (w : Nat) (rq : 
     · simp only [hopen, hg] at h
       split at h
       · exact absurd h (by simp)
-      · simp only [finish_out] at h
-        obtain ⟨h1, h2⟩ := finishOut_served h
-        obtain ⟨cl, _, hcl, hrc, haad, _⟩ := hit_sound hinv w rq c0 rc0 cache1 hopen hg
-        subst h1 h2
-        exact ⟨cl, hcl, hrc.symm, haad⟩
+      · split at h
+        · exact absurd h (by simp)
+        · simp only [finish_out] at h
+          obtain ⟨h1, h2⟩ := finishOut_served h
+          obtain ⟨cl, _, hcl, hrc, haad, _⟩ := hit_sound hinv w rq c0 rc0 cache1 hopen hg
+          subst h1 h2
+          exact ⟨cl, hcl, hrc.symm, haad⟩
 
 /-- AAD equality is identity equality when domains carry no NUL (the separator) -/
 theorem append_sep_inj {α} (a : α) : ∀ (d d' p p' : List α), a ∉ d → a ∉ d' → d ++ a :: p = d' ++ a :: p' →
@@ -695,13 +714,15 @@ theorem serveCont_caps (cfg : Cfg) (W : World) (w : Nat) (rq : Req) : (serveCont
       simp only [hg]
       split
       · exact setCache_caps W w cache1 hcap
-      · rw [finish_caps]; exact setCache_caps W w cache1 hcap
+      · split
+        · exact setCache_caps W w cache1 hcap
+        · rw [finish_caps]; exact setCache_caps W w cache1 hcap
 
 theorem step_caps (cfg : Cfg) (W : World) (s : Step) : (step cfg W s).caps = W.caps := by
   cases s with
   | tick d => rfl
-  | init w ident m rc =>
-    show (serveInit cfg W w ident m rc).caps = W.caps
+  | init w ident m content stype =>
+    show (serveInit cfg W w ident m content stype).caps = W.caps
     unfold serveInit
     exact setCache_caps W w _ (put_spec (W.cache w) _ _ _ _).cap
   | cont w rq => exact serveCont_caps cfg W w rq
